@@ -1,59 +1,12 @@
-"""Per-property claims.  A property without an entry here is listed under not_applicable (not yet claimed)."""
+"""Per-property claims live in tools/checks.json (append entries there).  A property without an entry is listed under
+not_applicable (not yet claimed)."""
 import json
 import os
 
 ROOT = os.path.dirname(os.path.dirname(os.path.abspath(__file__)))
-NOTE = ("Trusted: CPython, numpy, h5py, ruamel.yaml, voluptuous; the harness's own reference oracle for this property "
-        "(a few lines, shares no code with armi); the process-local ruamel max_depth shim. Says nothing about inputs the "
-        "workload did not generate; evidence lists what the monitors observed.")
-
-CHECKS = [
-    {"property_id": "C07",
-     "technique": "runtime monitoring: exhaustive/sampled workload on real grids + closed-form geometry oracle",
-     "text": "Every hex cell within N rings (quick 14, thorough 60; both orientations) plus sampled far cells, Cartesian cells within N rings "
-             "(through-centre and offset), random axial/theta-r-z bounds grids, three-deep nestings of real composites, and ring-count "
-             "arithmetic are run through the real grid API and compared with an independent closed-form geometry (basis vectors from the "
-             "pitch, cube-coordinate distance, integer ring counting). Exhaustive inside the stated ring bound, sampled outside it.",
-     "note": NOTE},
-    {"property_id": "C08",
-     "technique": "runtime monitoring: exhaustive/sampled workload on real grids, blocks and assemblies + 2x2 rotation/reflection oracle on recorded coordinates",
-     "text": "Symmetric equivalents, domain membership and symmetry-line classification of every hex cell within N rings (both orientations) "
-             "and every Cartesian cell within N rings (4 quarter-core variants) are compared with the images of the cell centre under the "
-             "symmetry group computed by an independent rotation/reflection; rotateIndex is checked for all cells x k in [-13,13] plus random "
-             "huge k (rotation of coordinates, additivity, identity at 6, ring preserved); generated hex blocks (multi-index, single, "
-             "free-coordinate children; random 6-vectors on every corner/edge parameter; displacement) and assemblies are rotated by k*60 deg "
-             "with the angle computed three ways and every observable is compared with the rotated original.",
-     "note": NOTE},
-    {"property_id": "C19",
-     "technique": "runtime monitoring: exhaustive scan of the live nuclide/element/material registries after the real factory ran + independent identifier encoder",
-     "text": "Exhaustive over what the running program actually holds: every nuclide base x every identifier kind is looked up in the live module-level "
-             "index and must return that very object, identifiers are collected to prove no two nuclides share one, and names/labels/MCNP/AAAZZZS ids are "
-             "re-derived by an independent encoder (own periodic table); every element's membership, abundances and standard weight; every burn-chain entry "
-             "(products exist, branching in [0,1]); every material class is instantiated and density/pseudo-density/expansion scanned over a temperature grid "
-             "across each stated validity range (quick 25, thorough 400 temperatures). Says the tables are self-consistent, not that they are physically right.",
-     "note": NOTE},
-    {"property_id": "C03",
-     "technique": "runtime monitoring: hook on Component.setTemperature records an event log; offline checker applies closed-form expansion laws",
-     "text": "Every 2-D shaped component class x every library material class is built and driven through random temperature paths inside the "
-             "material's stated range; a hook on the real Component.setTemperature logs temperatures and number densities before/after, and an offline "
-             "checker compares every step with f=(100+p(T))/(100+p(T0)) evaluated by the harness from the material's own correlation: N scales by f^-2, "
-             "area by f^2, N*A conserved, each expanding dimension = cold x f(Tinput->T), end state independent of the path (vs a fresh component taken "
-             "there in one step), hot setDimension reads back, linked dimensions (pairs and chains, free and inside a block) always equal the target's "
-             "current value with no stale area/volume cache, fluid/custom components keep their dimensions. The shape x material product is complete; "
-             "temperatures and paths are sampled.",
-     "note": NOTE},
-    {"property_id": "C02",
-     "technique": "runtime monitoring: additivity ledger recomputed from leaf components after every edit + read-back oracle per composition edit",
-     "text": "Generated blocks of every extruded shape/multiplicity/material, assemblies, and third-/full-core reactors built from generated blueprints "
-             "(symmetry factors 1 and 3 observed) are driven through random histories of composition edits at component, block, assembly and core level, "
-             "interleaved with temperature and height changes. After every edit a ledger recomputed from the leaf components only (volume, N*V per "
-             "nuclide, mass per nuclide and per nuclide/element/list selection) must equal what each parent reports, mass must equal density x volume, "
-             "mass fractions must sum to one, and the law of the edit is checked (requested value reads back, every other nuclide unchanged, proportions "
-             "and total density kept for mass-fraction edits); densityTools conversions are checked as inverse pairs against N = rho*w*NA/A.",
-     "note": NOTE + " Mass edits addressed by an elemental name in an object that also holds isotopes of that element are not judged (the "
-             "specifier rule resolves the name per component by design)."},
-]
-
+_d = json.load(open(os.path.join(ROOT, "tools", "checks.json")))
+NOTE = _d["note"]
+CHECKS = sorted(_d["checks"], key=lambda c: c["property_id"])
 _claimed = {c["property_id"] for c in CHECKS}
 NOT_APPLICABLE = []
 for line in open(os.path.join(ROOT, "properties.jsonl")):
